@@ -341,9 +341,12 @@ impl Version {
         let mut input = original;
 
         if input.len() > MAX_LENGTH {
+            // Point at the last character; `len() - 1` is not a character
+            // boundary when that character is multi-byte.
+            let last = input.char_indices().next_back().map_or(0, |(i, _)| i);
             return Err(SemverError {
                 input: input.into(),
-                span: (input.len() - 1, 0).into(),
+                span: (last, 0).into(),
                 kind: SemverErrorKind::MaxLengthError,
             });
         }
